@@ -432,10 +432,10 @@
                         same = 0;
                         last = t;
                     }
-                    if same >= 20 {
+                    if same >= 120 {
                         let cur = WD_CUR.lock().unwrap().clone();
                         if let Some(sc) = cur {
-                            println!("{{\"scenarios\":{},\"samples\":[],\"bound\":\"exploration stopped at the first broadcast that did not return\",\"failures\":[{{\"check\":\"broadcast-poll-returns\",\"props\":\"C14\",\"count\":1,\"scenario\":{},\"detail\":\"a poll of the broadcast future had not returned after 5 s\"}}]}}", t, sc_json(&sc));
+                            println!("{{\"scenarios\":{},\"samples\":[],\"bound\":\"exploration stopped at the first broadcast that did not return\",\"failures\":[{{\"check\":\"broadcast-poll-returns\",\"props\":\"C14\",\"count\":1,\"scenario\":{},\"detail\":\"a poll of the broadcast future had not returned after 30 s\"}}]}}", t, sc_json(&sc));
                             std::process::exit(0);
                         }
                     }
